@@ -7,7 +7,9 @@ V = os.path.dirname(os.path.dirname(os.path.abspath(__file__)))
 props = [json.loads(l) for l in open(os.path.join(V, "properties.jsonl"))]
 
 BASE_TRUST = ("Trusted: the pyvc VC generator itself (ast -> z3; cross-checked by seeded mutants and CPython replays), "
-              "z3/cvc5, CPython semantics of the modelled subset (DESIGN 1.5). ")
+              "z3/cvc5, CPython semantics of the modelled subset (DESIGN 1.5). Every check also discharges the shared-state scan "
+              "(no module-/class-level mutable state, no mutable defaults, no store outside locals/self) on which the per-function, "
+              "fresh-object argument rests. ")
 
 CLAIMS = {
     "C08": dict(
@@ -40,7 +42,9 @@ CLAIMS.update({
         text=("Exceptional postconditions of every function from the public entry points down: the constructor raises only "
               "RTCMMessageError/RTCMTypeError for ANY bytes (symbolic payload, lengths 0..), parse adds RTCMParseError, read()/__next__ "
               "raise nothing in ignore/log modes and only the four library classes in raise mode; the table walk is verified per "
-              "concrete node of the real tables; termination of read() by a variant obligation (each further iteration consumed >= 1 byte)."),
+              "concrete node of the real tables; termination by loop-variant obligations: read() (each further iteration consumed >= 1 byte), "
+              "SocketWrapper.read/readline (net_end - rpos / net_end - dpos under a finite peer stream; _recv reports success only after "
+              "taking >= 1 byte off it); a third instance of read() covers duck-typed streams that return bytearray objects."),
         design_ref="DESIGN.md 5/C04",
         note=BASE_TRUST + "Leaf decoder _set_attribute_single is used through its contract here (its body is the subject of C03/C06). "
              "User errorhandler assumed not to raise.",
@@ -62,7 +66,9 @@ CLAIMS.update({
               "private and new names), __init__ is proved to set the flag on every normal path including unknown types, and the "
               "members usable afterwards are proved (symbolic execution + syntactic frame scan) to write nothing."),
         design_ref="DESIGN.md 5/C14",
-        note=BASE_TRUST + "object.__setattr__ is a plain store; bytes objects are immutable.",
+        note=BASE_TRUST + "object.__setattr__ is a plain store except for setter-less class properties (AttributeError); bytes objects are "
+             "immutable, and the reading layer (SocketWrapper.read, _read_bytes, _parse_rtcm3, parse) is proved to hand the constructor bytes, "
+             "never a bytearray.",
         technique="VC generation from the real AST; frame conditions checked on every write site; z3",
     ),
     "C15": dict(
@@ -86,7 +92,8 @@ CLAIMS.update({
               "every item kind is reachable."),
         design_ref="DESIGN.md 5/C02",
         note=BASE_TRUST + "Assumed: fault-free stream contract; the ghost item axioms are the property's own well-formedness predicate; "
-             "ParsesOK(payload) is uninterpreted here (C03/C04/C15 give it meaning). The induction over successive read() calls is argued.",
+             "ParsesOK(payload) is uninterpreted in read()'s own obligations; the decode-path obligations (as in C03) included in this check show it "
+             "fails only where the reference layout interpreter fails. The induction over successive read() calls is argued.",
         technique="VC generation from the real AST; loop invariant over ghost item partition, engine-side axiom instantiation; z3",
     ),
     "C05": dict(
